@@ -253,6 +253,11 @@ PROPS["C14"] = dict(
 )
 
 PROPS["C13"] = dict(
+    registered=True,
+    level_text="Kernel-checked on write sequences whose ORDER is regenerated from the source: if every write finds its prerequisites in place, every prefix (crash point) is consistent (generic theorem over 13 write kinds); instantiated for `wrgl commit` "
+               "(blocks+indices, table index, profile, table, commit, branch) and for the receipt of a table (indices and profile before the table object) for every table shape; the pre-repair order is proved unsafe. "
+               "Correspondence: commit, merge commit, receive and prune run against real packages behind fault-injecting stores at EVERY write position; each crash state is a prefix of the recorded trace, is checked with the same Lean clauses, and the re-run reaches the uninterrupted outcome.",
+    level_note=LEVEL_NOTE + "PARTIAL: atomicity/durability of a single badger / SQLite call is assumed; the real `wrgl` binary is not killed (in-process stores stand in); re-run equivalence is observed, not proved; merge-commit and prune sequences are covered by the generic theorem plus runs, not by instantiated theorems. Known finding: prune deletes a parent before its (unreachable) child.",
     lean_modules=["WrglModel.Props.C13"],
     quick_n=120, thorough_n=1500,
     rule="seeded repositories (a branch with a real table of 3..270 rows) and one operation: commit (same or new branch, 1..4 workers), merge commit (IngestTableFromBlocks + profile + "
